@@ -20,7 +20,8 @@ for l in open(V + '/properties.jsonl'):
 SEED_DRIVEN = {'C02.U3', 'C02.U4', 'C02.U6', 'C03.I8', 'C04.T4', 'C04.T5', 'C04.T6', 'C05.V4', 'C05.V6', 'C06.K7', 'C06.K8', 'C07.H6d', 'C08.D1',
                'C10.B4', 'C10.B9', 'C10.B10', 'C11.F4', 'C11.F6', 'C11.F7', 'C12.S3b', 'C12.S8', 'C13.L7', 'C13.L8', 'C13.L9', 'C14.X4', 'C14.X5',
                'C15.A4', 'C15.A5', 'C15.A6', 'C16.W5', 'C16.W6', 'C16.W8', 'C16.W9',
-               'C04.T7', 'C04.T8', 'C04.T9', 'C05.V7', 'C08.D5', 'C10.B11', 'C11.F8', 'C12.S9', 'C12.S10', 'C13.L10', 'C13.L11', 'C13.L12', 'C15.A7', 'C15.A8', 'C16.W10', 'C17.Z3'}
+               'C04.T7', 'C04.T8', 'C04.T9', 'C05.V7', 'C08.D5', 'C10.B11', 'C11.F8', 'C12.S9', 'C12.S10', 'C13.L10', 'C13.L11', 'C13.L12', 'C15.A7', 'C15.A8', 'C16.W10', 'C17.Z3',
+               'C02.U7', 'C02.U8', 'C02.U9', 'C03.I9', 'C03.I10', 'C04.T10', 'C04.T11', 'C04.T12', 'C06.K9', 'C06.K10', 'C06.K11', 'C06.K12', 'C10.B12', 'C12.S11', 'C13.L13', 'C14.X6', 'C15.A9', 'C16.W11', 'C17.Z4', 'C17.Z5'}
 
 FINDINGS = [
  ('F1', 'C13.L1, C11.L1', '`create_active_blob_in_background()` while an active blob exists ⇒ `process_msg` returns Err ⇒ `ObserverWorker::run` panics; after that an overflowing blob is never rotated', '1ed2f78', 'log and continue'),
